@@ -123,6 +123,33 @@ def h_none_ids(ctx, H, P):
     eval("H." + call, {"H": H, "a": a, "e": e, "e2": e2})
 
 
+FS = frozenset({"q"})
+EXOTIC_CALLS_H = [
+    "add_edge([a, [b]])",
+    "add_edge([a, [b]], idx=e)",
+    "add_edges_from([[a, b], [a, [b]]])",
+    "add_edges_from({e: [a, [b]]})",
+    "add_edges_from([([a, [b]], e)])",
+    "add_nodes_from([a, [b]])",
+    "add_node_to_edge(e, [b])",
+    "add_edge([a, b], idx=FS)",
+    "add_edge([a, b], idx=b'x')",
+    "add_edges_from([([a, b], FS)])",
+    "add_edges_from({FS: [a, b]})",
+    "add_edges_from([([a, b], FS, {'k': 1})])",
+    "add_node_to_edge(FS, a)",
+]
+
+
+def h_exotic_args(ctx, H, P):
+    """Unhashable members, and edge ids that are hashable but not numbers, strings or
+    tuples (frozenset, bytes): whatever the call does, the tables must stay consistent."""
+    a, b, e = ctx.fresh(), ctx.fresh(), ctx.fresh("i")
+    call = EXOTIC_CALLS_H[ctx.choose("which", len(EXOTIC_CALLS_H))]
+    _rec(ctx, call=call, a=a, b=b, e=e)
+    eval("H." + call, {"H": H, "a": a, "b": b, "e": e, "FS": FS})
+
+
 def h_add_edges_from_iter(ctx, H, P):
     """Members given as one-shot iterators (documented: any iterable)."""
     a, b = ctx.fresh(), ctx.fresh()
@@ -375,6 +402,7 @@ OPS_H = {
         h_add_edges_from_setarg,
         h_add_edges_from_attrpairs,
         h_none_ids,
+        h_exotic_args,
         h_add_edge_stridx,
         h_add_edges_from_1,
         h_add_edges_from_2,
@@ -408,7 +436,7 @@ ADD_ONLY = {
     "add_edges_from_5", "add_weighted_edges_from", "update", "add_simplex", "add_simplex_none", "add_edges_from_iter",
     "add_simplices_from_1", "add_simplices_from_2", "add_simplices_from_3", "add_simplices_from_4",
     "add_simplices_from_5", "add_weighted_simplices_from", "dep_add_edge", "dep_add_edges_from",
-    "add_simplices_from_maxorder", "add_simplices_from_iter",
+    "add_simplices_from_maxorder", "add_simplices_from_iter", "exotic_args",
 }
 
 HEAVY_H = {
@@ -690,6 +718,30 @@ def d_none_ids(ctx, D, P):
     eval("D." + call, {"D": D, "a": a, "e": e})
 
 
+EXOTIC_CALLS_D = [
+    "add_edge(([a], [[b]]))",
+    "add_edge(([[a]], [b]))",
+    "add_edge(([a], [[b]]), idx=e)",
+    "add_edges_from([([a], [b]), ([a], [[b]])])",
+    "add_edges_from({e: ([a], [[b]])})",
+    "add_edges_from([(([[a]], [b]), e)])",
+    "add_nodes_from([a, [b]])",
+    "add_node_to_edge(e, [b], 'in')",
+    "add_edge(([a], [b]), idx=FS)",
+    "add_edge(([a], [b]), idx=b'x')",
+    "add_edges_from([(([a], [b]), FS)])",
+    "add_edges_from({FS: ([a], [b])})",
+    "add_node_to_edge(FS, a, 'out')",
+]
+
+
+def d_exotic_args(ctx, D, P):
+    a, b, e = ctx.fresh(), ctx.fresh(), ctx.fresh("i")
+    call = EXOTIC_CALLS_D[ctx.choose("which", len(EXOTIC_CALLS_D))]
+    _rec(ctx, call=call, a=a, b=b, e=e)
+    eval("D." + call, {"D": D, "a": a, "b": b, "e": e, "FS": FS})
+
+
 OPS_D = {
     f.__name__[2:]: f
     for f in [
@@ -702,6 +754,7 @@ OPS_D = {
         d_add_edges_from_none,
         d_add_edges_from_iter,
         d_none_ids,
+        d_exotic_args,
         d_add_edges_from_1,
         d_add_edges_from_2,
         d_add_edges_from_3,
@@ -920,11 +973,32 @@ def s_convert_labels(ctx, S, P):
     xgi.convert_labels_to_integers(S, in_place=True)
 
 
+EXOTIC_CALLS_S = [
+    "add_simplex([a, [b]])",
+    "add_simplex([a, b, [c]], idx=e)",
+    "add_simplices_from([[a, b, c], [[a], b]])",
+    "add_simplices_from({e: [a, b, [c]]})",
+    "add_simplex([a, b, c], idx=FS)",
+    "add_simplex([a, b, c], idx=b'x')",
+    "add_simplices_from([([a, b, c], FS)])",
+    "add_simplices_from({FS: [a, b, c]})",
+    "add_simplices_from([([a, b, c], FS, {'k': 1})])",
+]
+
+
+def s_exotic_args(ctx, S, P):
+    a, b, c, e = ctx.fresh(), ctx.fresh(), ctx.fresh(), ctx.fresh("i")
+    call = EXOTIC_CALLS_S[ctx.choose("which", len(EXOTIC_CALLS_S))]
+    _rec(ctx, call=call, a=a, b=b, c=c, e=e)
+    eval("S." + call, {"S": S, "a": a, "b": b, "c": c, "e": e, "FS": FS})
+
+
 OPS_S = {
     f.__name__[2:]: f
     for f in [
         s_add_simplex,
         s_add_simplex_none,
+        s_exotic_args,
         s_add_simplices_from_1,
         s_add_simplices_from_2,
         s_add_simplices_from_3,
